@@ -61,7 +61,7 @@ def curated():
              root=E('resources', [], [E('item', [S('k', 'v1', ns=None)], ['one']), E('item', [S('k', 'v2', ns=None)], ['two']),
                                       E('group', [], [E('item', [V('n', 0x11, 0x1f, ns=None)])])])),
         dict(utf8=False, namespaces=[('android', A)], resids={'theme': 0x01010000}, extra_strings=[],
-             root=E('a', [V('theme', 2, 0x01030005)], ['head', E('b', [], ['inner']), 'tail1', E('c'), 'tail2'])),
+             root=E('a', [V('theme', 2, 0x01030005)], ['head', 'head2', E('b', [], ['inner', 'inner2']), 'tail1', 'tail1b', E('c'), 'tail2'])),
     ]
 
 
